@@ -1,4 +1,5 @@
 import FrappyProofs.Lemmas.StateMachineInv
+import FrappyProofs.Lemmas.StateMachineBusy
 import FrappyModel.Spec.C14
 import FrappyModel.Generated.C14
 /-
@@ -7,8 +8,9 @@ C14 — property theorems (nothing but property theorems, statements and their n
 Proved for every configuration, every program (arbitrary functions of the history), every oracle of
 concurrent requests (at every read of `next_task`) and every operation sequence; the clauses over histories come
 from one coupling invariant between the machine and the observer (`Lemmas/StateMachineInv.lean`).
-`busy_until_finished` holds for requests that are atomic with respect to `cycle` and is refuted for a preempted
-`start_machine` by a proved counterexample.
+`busy_until_finished` holds for requests that are atomic with respect to the transitions of the machine (what the lock
+of the repaired code provides) and is refuted, by a proved counterexample, for a `start_machine` preempted by a
+transition (the code before the repair).
 -/
 namespace Frappy.Props.C14
 open Frappy.SM Frappy.States Frappy.Spec.C14
@@ -53,10 +55,11 @@ def history (cfg : Cfg) (P : Prog) (idle : Status) (ops : List Op) : List Ev := 
 
 theorem okAll_parts {ml : Nat} {o : Obs} {e : Ev} (h : okAll ml o e = true) :
     okInit o e = true ∧ okCleanupOnce o e = true ∧ okCleanupNotInterrupted o e = true ∧ okStopInactive o e = true ∧
-    okLastStart o e = true ∧ okPickedUp o e = true ∧ okBound ml o e = true ∧ okNoRaise o e = true := by
+    okLastStart o e = true ∧ okPickedUp o e = true ∧ okBound ml o e = true ∧ okNoRaise o e = true ∧
+    okStopPosted o e = true ∧ okStartPosted o e = true := by
   simp only [okAll, Bool.and_eq_true] at h
-  obtain ⟨⟨⟨⟨⟨⟨⟨a, b⟩, c⟩, d⟩, e'⟩, f⟩, g⟩, i⟩ := h
-  exact ⟨a, b, c, d, e', f, g, i⟩
+  obtain ⟨⟨⟨⟨⟨⟨⟨⟨⟨a, b⟩, c⟩, d⟩, e'⟩, f⟩, g⟩, i⟩, j⟩, k⟩ := h
+  exact ⟨a, b, c, d, e', f, g, i, j, k⟩
 
 /-- positional form of the call bound: at every call of a state function, fewer than `2·maxloops` calls were made
 since the cycle began -/
@@ -67,7 +70,7 @@ theorem cycle_calls_bounded_positional (cfg : Cfg) (P : Prog) (idle : Status) (o
 /-- `raised` never occurs, as a clause over histories -/
 theorem cycle_never_raises_positional (cfg : Cfg) (P : Prog) (idle : Status) (ops : List Op) :
     NeverRaises idle (history cfg P idle ops) :=
-  (run_good cfg P idle ops).mono fun _ _ h => (okAll_parts h).2.2.2.2.2.2.2
+  (run_good cfg P idle ops).mono fun _ _ h => (okAll_parts h).2.2.2.2.2.2.2.1
 
 /-- The first call of a state after a transition — and only that — sees the init flag, and the function called is
 the state entered most recently. -/
@@ -88,108 +91,38 @@ theorem cleanup_not_interrupted (cfg : Cfg) (P : Prog) (idle : Status) (ops : Li
   (run_good cfg P idle ops).mono fun _ _ h => (okAll_parts h).2.2.1
 
 /-- After stop the machine is inactive at the end of the first cycle that saw no further request and leaves no
-cleanup sequence in progress. -/
+cleanup sequence in progress; and a stop request to a module (`stop_machine`) that finds a state function active —
+of a normal run or of a cleanup sequence in progress, with or without a start waiting behind it — has posted its
+stop to the machine when it returns. -/
 theorem stop_makes_inactive (cfg : Cfg) (P : Prog) (idle : Status) (ops : List Op) :
     StopMakesInactive idle (history cfg P idle ops) :=
-  (run_good cfg P idle ops).mono fun _ _ h => (okAll_parts h).2.2.2.1
+  ⟨(run_good cfg P idle ops).mono fun _ _ h => (okAll_parts h).2.2.2.1,
+   (run_good cfg P idle ops).mono fun _ _ h => (okAll_parts h).2.2.2.2.2.2.2.2.1⟩
 
 /-- What the machine takes is the most recent request; a start taken is entered next, before any state call, with
 the requested cleanup and exactly the requested attribute update; no request is left waiting at the end of a cycle
-that saw no further request and leaves no cleanup sequence in progress. -/
+that saw no further request and leaves no cleanup sequence in progress; a start request to a module
+(`start_machine`) has posted its start to the machine when it returns. -/
 theorem last_start_wins (cfg : Cfg) (P : Prog) (idle : Status) (ops : List Op) :
     LastStartWins idle (history cfg P idle ops) :=
   ⟨(run_good cfg P idle ops).mono fun _ _ h => (okAll_parts h).2.2.2.2.1,
-   (run_good cfg P idle ops).mono fun _ _ h => (okAll_parts h).2.2.2.2.2.1⟩
+   (run_good cfg P idle ops).mono fun _ _ h => (okAll_parts h).2.2.2.2.2.1,
+   (run_good cfg P idle ops).mono fun _ _ h => (okAll_parts h).2.2.2.2.2.2.2.2.2⟩
 
-/-- the requests a program / an operation sequence issues keep to busy status codes -/
-def busyReq (r : Rules) : Req → Prop
-  | .start _ _ _ (some st) => isBusy r st = true
-  | _ => True
-
-def busy_until_finished_statement : Prop :=
-  ∀ (cfg : Cfg) (P : Prog) (idle : Status) (ops : List Op), cfg.hasStates = true →
-    (∀ s st, cfg.rules.statusOf s = some st → isBusy cfg.rules st = true) →
-    (∀ tr s, ∀ q ∈ (P.state tr s).posts, busyReq cfg.rules q) →
-    (∀ tr c, ∀ q ∈ (P.clean tr c).posts, busyReq cfg.rules q) →
-    (∀ n, ∀ q ∈ P.env n, busyReq cfg.rules q) →
-    (∀ q, Op.req q ∈ ops → busyReq cfg.rules q) →
-    BusyUntilFinished idle cfg.rules (history cfg P idle ops)
-
-/-! ### `busy_until_finished`: the proved part
-
-The clause over histories (`busy_until_finished_statement`, requests atomic with respect to `cycle`) is not proved:
-it needs a second invariant (`engaged → busy status`, `not engaged → status = idle status`) carried through every
-definition like the coupling above.  Proved here is its local content: every assignment to `sm.status` that
-`start_machine`, `stop_machine` and `state_transition` make preserves that invariant — for all rules, states,
-pending tasks and status values. -/
-
-/-- the status rules keep to busy codes: attached status codes are busy, and `BUSY` itself is a busy code -/
-structure BusyRules (r : Rules) : Prop where
-  attached : ∀ s st, r.statusOf s = some st → isBusy r st = true
-  busy : r.busy < r.error
-
-theorem getStatus_busy {r : Rules} (hr : BusyRules r) (s : Sid) (d : Nat) (hd : r.busy ≤ d ∧ d < r.error) :
-    isBusy r (getStatus r s d) = true := by
-  unfold getStatus
-  cases h : r.statusOf s with
-  | some st => exact hr.attached s st h
-  | none => simp [isBusy, hd.1, hd.2]
-
-/-- `start_machine` assigns a busy status (any target state, machine active or not, a busy override or none) -/
-theorem busy_until_finished_partial_start {r : Rules} (hr : BusyRules r) (active : Bool) (s : Sid) (ovr : Option Status)
-    (hovr : ∀ st, ovr = some st → isBusy r st = true) : isBusy r (startStatus r active s ovr) = true := by
-  have hg := getStatus_busy hr s r.busy ⟨Nat.le_refl _, hr.busy⟩
-  unfold startStatus
-  cases ovr with
-  | some st => exact hovr st rfl
-  | none =>
-    cases active with
-    | false => exact hg
-    | true => simpa [isBusy] using hg
-
-/-- `stop_machine` keeps the status busy while the machine is still active -/
-theorem busy_until_finished_partial_stop {r : Rules} (hr : BusyRules r) (cur : Sid) (status : Status)
-    (hs : isBusy r status = true) : isBusy r (stopStatus r cur status) = true := by
-  have hd : r.busy ≤ status.1 ∧ status.1 < r.error := by simpa [isBusy] using hs
-  have hg := getStatus_busy hr cur status.1 hd
-  unfold stopStatus
-  simpa [isBusy] using hg
-
-/-- a transition after which the module is still engaged (a state is entered, or a start is waiting) assigns a busy
-status or leaves the (busy) status alone -/
-theorem busy_until_finished_partial_transition {r : Rules} (hr : BusyRules r) (status idle : Status) (p : Pending)
-    (ns : Option Sid) (hs : isBusy r status = true) (heng : ns.isSome = true ∨ ∃ s, p = .start s) (st : Status)
-    (h : transitionStatus r status idle p ns = some st) : isBusy r st = true := by
-  have hd : r.busy ≤ status.1 ∧ status.1 < r.error := by simpa [isBusy] using hs
-  unfold transitionStatus at h
-  cases ns with
-  | some s =>
-    cases hso : r.statusOf s with
-    | none => cases p <;> simp [hso] at h
-    | some st0 =>
-      have h0 := hr.attached s st0 hso
-      have hd0 : r.busy ≤ st0.1 ∧ st0.1 < r.error := by simpa [isBusy] using h0
-      cases p with
-      | none => simp [hso] at h; rw [← h]; exact h0
-      | stop => simp [hso] at h; rw [← h]; simp [isBusy, hd0.1, hd0.2]
-      | start s' =>
-        simp only [hso] at h
-        split at h
-        · simp at h; rw [← h]; exact hs
-        · simp at h; rw [← h]; simp [isBusy, hd.1, hd.2]
-  | none =>
-    rcases heng with hh | ⟨s', rfl⟩
-    · cases hh
-    · simp at h; rw [← h]; exact getStatus_busy hr s' r.busy ⟨Nat.le_refl _, hr.busy⟩
-
-/-- the transition that makes the module idle (machine inactive, no start waiting) assigns the final / stopped status -/
-theorem busy_until_finished_partial_final (r : Rules) (status idle : Status) (p : Pending)
-    (hp : ∀ s, p ≠ .start s) : transitionStatus r status idle p none = some idle := by
-  unfold transitionStatus
-  cases p with
-  | none => rfl
-  | stop => rfl
-  | start s => exact absurd rfl (hp s)
+/-- **A module built on the machine reports a busy status from the start request until the machine has finished, and
+its final or stopped status afterwards** — for every configuration of the mixin, every program, every oracle of
+concurrent requests (atomic with respect to the transitions of the machine: in the code `start_machine`,
+`stop_machine`, `final_status` and `StateMachine._new_state` run under one lock), every operation sequence, provided
+the status codes attached to state functions and given as `status=` overrides are busy codes and `BUSY < ERROR`.
+Every status report in the history is busy while a state function is active or a start is waiting or being entered,
+and is the final / stopped status declared most recently otherwise. -/
+theorem busy_until_finished (cfg : Cfg) (P : Prog) (idle : Status) (ops : List Op) (hs : cfg.hasStates = true)
+    (hr : BusyRules cfg.rules) (hP : BusyProg cfg.rules P) (ho : BusyOps cfg.rules ops) :
+    BusyUntilFinished idle cfg.rules (history cfg P idle ops) :=
+  ⟨(run_busy cfg hs hr P hP idle ops ho).mono fun _ _ h => by
+      simp only [okB, Bool.and_eq_true] at h; exact h.1,
+   (run_busy cfg hs hr P hP idle ops ho).mono fun _ _ h => by
+      simp only [okB, Bool.and_eq_true] at h; exact h.2⟩
 
 /-! ### non-vacuity / concrete scenarios -/
 
@@ -200,8 +133,8 @@ def rules0 : Rules :=
 
 def cfg0 (hs : Bool) : Cfg := { maxloops := 2, hasStates := hs, rules := rules0 }
 
-/-- the hypotheses of the busy lemmas are met by rules with an attached busy status and states without one -/
-example : BusyRules rules0 := by
+/-- the hypotheses of `busy_until_finished` are met by rules with an attached busy status and states without one … -/
+theorem busyRules0 : BusyRules rules0 := by
   refine ⟨?_, by decide⟩
   intro s st h
   simp only [rules0] at h
@@ -225,6 +158,91 @@ example : cnt isCall (run (cfg0 false) chainProg (SM.initial (100, ""))
 /-- the monitors accept that history, and it contains exactly one cleanup call -/
 example : judge (100, "") 2 false rules0 (run (cfg0 false) chainProg (SM.initial (100, ""))
     [.req (.start 0 (some 0) [(1, 5)] none), .cycle, .cycle]).trace = [] := by decide +kernel
+
+/-! ### a stop request while a cleanup sequence with a start waiting behind it is in progress -/
+
+/-- state 0 retries for ever; the cleanup returns state 2, which retries and finishes in its third call -/
+def cleanupProg : Prog :=
+  { state := fun tr s => { posts := [], fin := none,
+                           ret := if s = 2 ∧ 4 ≤ cnt isCall { SM.initial (100, "") with trace := tr } then .finish else .retry },
+    clean := fun _ _ => { posts := [], fin := none, ret := .next 2 },
+    env := fun _ => [] }
+
+/-- `start_machine(st_0, cleanup=cl_0)`, a cycle, `start_machine(st_3)` (restart: the cleanup sequence begins), a cycle -/
+def restartOps : List Op := [.req (.start 0 (some 0) [] none), .cycle, .req (.start 3 none [(1, 5)] none), .cycle]
+
+/-- … now the cleanup sequence is in progress (state 2 active, reason set) with the start of state 3 waiting behind it -/
+example : let σ := run (cfg0 true) cleanupProg (SM.initial (100, "")) restartOps;
+    (σ.statefunc, σ.reason, σ.nextTask) = (some 2, some .restart, some (.start 3 none [(1, 5)] none)) := by decide +kernel
+
+/-- `stop_machine` now, then three cycles: the stop is posted, the cleanup sequence is finished (not restarted), the
+superseded start is never entered, the machine ends inactive with the stopped status — and the monitors accept the
+history (`stop_makes_inactive` and `last_start_wins` are about histories in which this really happens) -/
+example : let σ := run (cfg0 true) cleanupProg (SM.initial (100, "")) (restartOps ++ [.req (.stop (100, "stopped")), .cycle, .cycle, .cycle]);
+    (σ.statefunc, σ.status, σ.nextTask, cnt (· == .cleanup 0) σ, cnt (· == .enter (some 3)) σ) =
+      (none, (100, "stopped"), none, 1, 0) ∧ judge (100, "") 2 true rules0 σ.trace = [] := by decide +kernel
+
+/-- the monitor is not vacuous either: the same history with a `stop_machine` that returns without having posted its
+stop is rejected, at the return of the request, by the clause `stop_makes_inactive` -/
+example : (judge (100, "") 2 true rules0
+      ((run (cfg0 true) cleanupProg (SM.initial (100, "")) restartOps).trace ++ [.reqStop, .reqDone false])).map
+        (fun v => (v.1, v.2.name)) = [(28, "stop_makes_inactive:stop-request-not-posted")] := by decide +kernel
+
+/-- … and a `start_machine` that returns without having posted its start is rejected by `last_start_wins` -/
+example : (judge (100, "") 2 true rules0 [.reqStart, .status (300, "st 0"), .reqDone true]).map
+        (fun v => (v.1, v.2.name)) = [(2, "last_start_wins:start-request-not-posted")] := by decide +kernel
+
+/-- a stop request that finds the machine inactive (here: a start is waiting, not yet taken) owes nothing -/
+example : judge (100, "") 2 true rules0
+      (run (cfg0 true) cleanupProg (SM.initial (100, "")) [.req (.start 0 none [] none), .req (.stop (100, "stopped"))]).trace = [] := by
+  decide +kernel
+
+/-! ### the busy clause: a history with restarts, a concurrent stop, `final_status` and status overrides -/
+
+/-- state 0 requests a restart with state 1 and a busy status override from inside its call; state 1 declares a final
+status and finishes; "another thread" requests a stop in the slot just before the transition to inactive -/
+def busyProg : Prog :=
+  { state := fun _ s => { posts := if s = 0 then [.start 1 none [] (some (370, "x"))] else [],
+                          fin := if s = 1 then some (200, "done") else none,
+                          ret := if s = 1 then .finish else .retry },
+    clean := fun _ _ => { posts := [], fin := none, ret := .bad },
+    env := fun n => if n = 9 then [.stop (100, "stopped")] else [] }
+
+def busyOps : List Op :=
+  [.req (.start 0 (some 0) [] none), .cycle, .cycle, .cycle, .req (.start 3 none [] (some (380, "y"))), .cycle, .cycle, .cycle]
+
+theorem busyProg0 : BusyProg rules0 busyProg := by
+  refine ⟨?_, ?_, ?_⟩
+  · intro tr s q hq
+    simp only [busyProg] at hq
+    split at hq
+    · simp at hq; subst hq; show isBusy rules0 (370, "x") = true; decide
+    · simp at hq
+  · intro tr c q hq; simp [busyProg] at hq
+  · intro n q hq
+    simp only [busyProg] at hq
+    split at hq
+    · simp at hq; subst hq; trivial
+    · simp at hq
+
+theorem busyOps0 : BusyOps rules0 busyOps := by
+  intro q hq
+  simp only [busyOps, List.mem_cons, Op.req.injEq, List.not_mem_nil, or_false, reduceCtorEq, false_or] at hq
+  rcases hq with rfl | rfl
+  · trivial
+  · show isBusy rules0 (380, "y") = true; decide
+
+/-- `busy_until_finished` applies to this history … -/
+example : BusyUntilFinished (100, "") rules0 (history (cfg0 true) busyProg (100, "") busyOps) :=
+  busy_until_finished (cfg0 true) busyProg (100, "") busyOps rfl busyRules0 busyProg0 busyOps0
+
+/-- … in which the module reports: busy from the start request on, through the restart requested from inside a state
+function (override), the stop of another thread arriving after `final_status` ("stopping"), then the stopped status
+while idle, then busy again from the next start request on -/
+example : (history (cfg0 true) busyProg (100, "") busyOps).filterMap (fun e => match e with | .status st => some st | _ => none) =
+    [(300, "st 0"), (300, "st 0"), (370, "x"), (370, "x"), (340, "state 1"), (340, "state 1"), (340, "stopping"),
+     (100, "stopped"), (100, "stopped"), (100, "stopped"), (380, "y"), (380, "y"), (380, "y"), (380, "y"), (380, "y")] := by
+  decide +kernel
 
 /-! ### `start_machine` preempted by a cycle: the busy clause fails -/
 
@@ -252,7 +270,7 @@ theorem busy_until_finished_fails_when_preempted :
     ¬ BusyUntilFinished (100, "") rules0 raceHistory := by
   intro h
   have hv : (judge (100, "") 2 true rules0 raceHistory).map (·.2) = [.busy, .busy, .busy] := by decide +kernel
-  have hsplit : raceHistory = raceHistory.take 21 ++ Ev.status (100, "") :: raceHistory.drop 22 := by decide +kernel
+  have hsplit : raceHistory = raceHistory.take 22 ++ Ev.status (100, "") :: raceHistory.drop 23 := by decide +kernel
   have := h.1 _ _ _ hsplit
   revert this
   decide +kernel
